@@ -26,7 +26,8 @@ lemmas): `Obs` (directed, hasNode, hasEdge, nodeAttr, edgeAttr), `nxObs` / `rxOb
 seen through its adapter), `memObs` (the SPECIFICATION: the attribute graph an in-memory geff
 denotes — element `k` has property `name` iff the property exists and `k` is not marked missing,
 with value `values[k]`), `MemEquiv` (same ids, edges, directedness, properties up to their order),
-`SgDomain` (the spatial-graph backend's documented domain);
+`SgDomain` / `SgGraphDomain` (the spatial-graph backend's documented domain, for an in-memory geff /
+for a spatial-graph graph);
 `MemValid`, `NxDomain`, `RegularVals`, `LeafClass` are in `GeffProofs/Backends.lean` / `Dicts.lean`. -/
 
 /-- **named hypothesis** (property C01, not re-proved here) -/
@@ -68,15 +69,13 @@ theorem C03_backends_agree (m : MemGeff) (h : MemValid m) :
   obtain ⟨gr, h3, h4⟩ := C03_rx_construct m h
   exact ⟨gn, gr, h1, h3, h2.trans h4.symm⟩
 
-/-- **C03 (spatial-graph construct, on its documented domain)**: for a valid non-empty geff with
-≥ 1 axis whose axes are scalar, non-missing node properties of one numeric dtype and whose other
-properties are numeric, regular and non-missing (`SgDomain`), `SgBackend.construct` succeeds and
-the graph — axes read back out of `position` as `SgGraphAdapter` does — shows exactly what the geff
-denotes; hence it agrees with networkx and rustworkx.  (Partial for spatial-graph as a whole: the
-reverse direction `SgBackend.write` + unsquish is modelled (`sgWrite`) and tied by the
-correspondence on every spatial-graph case, but its round-trip theorem is not proved here; axes of
-different dtypes are the known finding `C03:sg-mixed-axis-dtypes`.) -/
-theorem C03_sg_construct_partial (m : MemGeff) (names : List String) (h : SgDomain m names) :
+/-- **C03 (spatial-graph construct agrees, on its documented domain)**: for a valid non-empty geff
+with ≥ 1 axis whose axes are scalar, non-missing node properties of one numeric dtype and whose
+other properties are numeric, regular and non-missing (`SgDomain`), `SgBackend.construct` succeeds
+and the graph — axes read back out of `position` as `SgGraphAdapter` does — shows exactly what the
+geff denotes; hence it agrees with networkx and rustworkx.  (Axes of different dtypes are promoted
+by `np.stack`: known finding `C03:sg-mixed-axis-dtypes`, outside `SgDomain`.) -/
+theorem C03_sg_construct (m : MemGeff) (names : List String) (h : SgDomain m names) :
     ∃ gs gn gr, sgConstruct m (some names) = .ok gs ∧ nxConstruct m = .ok gn ∧ rxConstruct m = .ok gr ∧
       sgObs names gs = memObs m ∧ sgObs names gs = nxObs gn ∧ sgObs names gs = rxObs gr := by
   obtain ⟨gs, h1, o1⟩ := sgConstruct_spec m names h
@@ -181,6 +180,32 @@ theorem C03_rx_roundtrip (store : MemGeff → Except Err MemGeff) (hs : StoreRou
   refine ⟨⟨G1, ?_, o1⟩, ⟨G2, ?_, o2⟩⟩
   · rw [rxWriteRead, hw]; exact h1
   · rw [rxWriteNxRead, hw]; exact h2
+
+/-- **C03 (spatial-graph round trip and its cross-backend reads)**: for a spatial-graph graph in
+the backend's documented domain (`SgGraphDomain`: unique ids, simple, `ndims = len(axis_names) ≥ 1`
+distinct axis names that are not attribute names, `position` of that width, numeric regular
+attributes) writing it with `axis_names` (`sgWrite`: `position` unsquished into one property per
+axis) and reading it back through any store satisfying `StoreRoundTrip` with spatial-graph,
+networkx or rustworkx succeeds and shows the same graph: same ids, edges, directedness, per node
+the same axis coordinates and attributes with equal values and kinds.  (Partial only in that the
+spatial-graph container itself — the order in which it reports nodes, its spatial index — is
+library code, abstracted by `SgGraph`.) -/
+theorem C03_sg_roundtrip (store : MemGeff → Except Err MemGeff) (hs : StoreRoundTrip store)
+    (g : SgGraph) (names : List String) (h : SgGraphDomain g names) :
+    (∃ g', writeRead (sgWrite g names) store (fun m => sgConstruct m (some names)) = .ok g' ∧
+        sgObs names g' = sgObs names g) ∧
+    (∃ g', writeRead (sgWrite g names) store nxConstruct = .ok g' ∧ nxObs g' = sgObs names g) ∧
+    (∃ g', writeRead (sgWrite g names) store rxConstruct = .ok g' ∧ rxObs g' = sgObs names g) := by
+  obtain ⟨m, hm, hdom, hobs⟩ := sgWrite_spec g names h
+  obtain ⟨m', hst, heq⟩ := hs m hdom.valid
+  have hdom' : SgDomain m' names := sgDomain_of_equiv m m' names heq hdom
+  obtain ⟨gs, gn, gr, h1, h2, h3, o1, o2, o3⟩ := C03_sg_construct m' names hdom'
+  have hmo := memEquiv_obs m m' heq hdom.valid
+  refine ⟨⟨gs, by simp only [writeRead, hm, hst, h1], ?_⟩, ⟨gn, by simp only [writeRead, hm, hst, h2], ?_⟩,
+    ⟨gr, by simp only [writeRead, hm, hst, h3], ?_⟩⟩
+  · rw [o1, hmo, hobs]
+  · rw [← o2, o1, hmo, hobs]
+  · rw [← o3, o1, hmo, hobs]
 
 /-! ## non-vacuity and the defects the theorems exclude -/
 
@@ -322,6 +347,36 @@ example : (sgConstruct exSg (some ["y", "x"])).toOption.map
     some (some (.sc (.f "0000000000000840")), some (.sc (.i 2)), some (.sc (.f "000000000000e03f")),
           [[.f "000000000000f03f", .f "0000000000000000"], [.f "0000000000000040", .f "0000000000000840"]]) := by
   decide
+
+/-- non-vacuity of the spatial-graph round trip: an undirected graph, 2 axes, one int16 attribute -/
+def exSgG : SgGraph :=
+  { directed := false, ndims := 2, posDtype := .f64, nodes := [3, 9, 4],
+    position := [[.f "000000000000f03f", .f "0000000000001040"], [.f "0000000000000040", .f "0000000000001440"],
+                 [.f "0000000000000840", .f "0000000000001840"]],
+    nodeAttrs := [("lab", ⟨.i16, false, [([], [.i 1]), ([], [.i 2]), ([], [.i 3])], none⟩)],
+    edges := [(9, 3), (9, 4)],
+    edgeAttrs := [("w", ⟨.f32, false, [([], [.f "000000000000e03f"]), ([], [.f "000000000000f03f"])], none⟩)] }
+
+example : SgGraphDomain exSgG ["y", "x"] where
+  nodup := by decide
+  nonempty := by decide
+  endpoints := by decide
+  simple := by decide
+  ndims := by decide
+  axes := by decide
+  axesNodup := by decide
+  posLen := by decide
+  posRows := by decide
+  posDtype := by decide
+  nodeNames := by decide
+  disjoint := by decide
+  nodeCols := by decide
+  edgeNames := by decide
+  edgeCols := by decide
+
+example : (writeRead (sgWrite exSgG ["y", "x"]) (fun m => .ok m) (fun m => sgConstruct m (some ["y", "x"]))).toOption.map
+    (fun g => (g.nodeAttr ["y", "x"] 9 "x", g.nodeAttr ["y", "x"] 4 "lab", g.edgeAttr (3, 9) "w", g.position == exSgG.position)) =
+    some (some (.sc (.f "0000000000001440")), some (.sc (.i 3)), some (.sc (.f "000000000000e03f")), true) := by decide
 
 /-- known finding `C03:sg-mixed-axis-dtypes`: with an integer time axis next to a float axis the
 model leaves its domain (numpy promotes the stacked position) -/
